@@ -559,6 +559,187 @@ def r8(ctx: Context) -> None:
                     bad = b
         ctx.add("R8", f"{f.qualname}::defaults-only-for-missing-keys", bad is None, f.loc(bad) if bad is not None else f.loc(), "" if bad is None else f"`{ast.unparse(bad)[:80]}`: a stored falsy value (0, False, '') is replaced by the default when the object is read back from a persistent backend, while the in-memory backend keeps the original object - the two backends then behave differently for that object")
     ctx.floor("R8", "readers of stored forms", n, 10)
+    # the same for the backends' own getters: a caller-supplied default stands in for an ABSENT entry only
+    n2 = 0
+    for c in ctx.repo.classes.values():
+        if not (c.name.startswith(("Mem", "SQLite")) and c.module.name.startswith("pynenc.")):
+            continue
+        for m in c.methods.values():
+            if not m.name.lstrip("_").startswith(("get", "retrieve", "load", "fetch")):
+                continue
+            n2 += 1
+            bad = None
+            for b in walk_no_nested(m.node):
+                if isinstance(b, ast.BoolOp) and isinstance(b.op, ast.Or) and any(isinstance(v, ast.Name) and v.id in m.params[1:] for v in b.values[1:]) and not (isinstance(b.values[0], ast.Name) and b.values[0].id in m.params):
+                    bad = b
+            ctx.add("R8", f"{m.qualname}::caller-default-only-for-absent-entries", bad is None, m.loc(bad) if bad is not None else m.loc(), "" if bad is None else f"`{ast.unparse(bad)[:80]}`: a stored falsy value (0, False, '', an empty list) is answered with the caller's default on this backend, while the sibling - which tests for the row / key being present - returns the stored value")
+    ctx.floor("R8", "backend getters", n2, 60)
+
+
+def r11(ctx: Context, class_filter=None) -> None:
+    """a backend operation that failed says so on both backends: no handler of a Mem* / SQLite* component turns an exception into a normal result (the in-memory sibling has no such failure and would answer differently)"""
+    ctx.rule("R11", "no method of an in-memory or SQLite component swallows an exception (every `except` ends in `raise`); the single allowed site is the bounded retry of `database is locked` in the connection wrapper")
+    ALLOWED = {"pynenc.util.sqlite_utils.SQLiteConnection.execute": "bounded retry on 'database is locked', re-raises afterwards"}
+    n11 = 0
+    for c in ctx.repo.classes.values():
+        if not (c.name.startswith(("Mem", "SQLite")) and c.module.name.startswith("pynenc.")):
+            continue
+        if class_filter is not None and not class_filter(c):
+            continue
+        for m in c.methods.values():
+            n11 += 1
+            hs = [h for h in ast.walk(m.node) if isinstance(h, ast.ExceptHandler) and not (h.body and isinstance(h.body[-1], ast.Raise))]
+            if m.qualname in ALLOWED:
+                ctx.ok("R11", f"{m.qualname}::errors-are-not-swallowed", m.loc(), "allowed: " + ALLOWED[m.qualname])
+                continue
+            ctx.add("R11", f"{m.qualname}::errors-are-not-swallowed", not hs, m.loc(hs[0]) if hs else m.loc(), "" if not hs else f"`except {ast.unparse(hs[0].type) if hs[0].type else ''}` ends without re-raising: a failed {c.name} operation is reported as an ordinary result (empty / default / done), which the sibling backend - where the failure cannot occur - never returns for that state")
+    ctx.floor("R11", "backend methods", n11, 150 if class_filter is None else 10)
+
+
+def r12(ctx: Context, class_filter=None) -> None:
+    """SQLite statements are atomic per row; the in-memory sibling must not replace a stored element (or the whole container) by a value computed from a copy of it without a lock: a concurrent writer's update in between is lost, the SQLite backend keeps both"""
+    from ..flow import read_copy_write_sites
+
+    ctx.rule("R12", "in-memory components do not read-copy-write a shared container or one of its elements without a lock (`tmp = copy(self.X[k]); ...; self.X[k] = tmp`, `tmp = dict(self.X); ...; self.X = tmp`), except at the frozen single-writer sites")
+    SINGLE_WRITER = {
+        "pynenc.orchestrator.mem_orchestrator.MemOrchestrator.increment_invocation_retries::invocation_retries": "only the runner that owns the invocation counts its retries",
+        "pynenc.trigger.mem_trigger.MemTrigger.clean_task_trigger_definitions::_condition_triggers": "runs while a task's triggers are (re)registered at start-up, before the trigger loop of this process polls",
+    }
+    n12 = 0
+    for c in ctx.repo.classes.values():
+        if not (c.name.startswith("Mem") and c.module.name.startswith("pynenc.")):
+            continue
+        if class_filter is not None and not class_filter(c):
+            continue
+        for m in c.methods.values():
+            n12 += 1
+            sites_ = read_copy_write_sites(m.node)
+            if not sites_:
+                continue
+            for node, attr, src in sites_:
+                k = f"{m.qualname}::{attr}"
+                if k in SINGLE_WRITER:
+                    ctx.ok("R12", f"{k}::no-unlocked-read-copy-write", m.loc(node), "single writer: " + SINGLE_WRITER[k])
+                else:
+                    ctx.fail("R12", f"{k}::no-unlocked-read-copy-write", m.loc(node), f"`{ast.unparse(node)[:70]}` stores a value computed from a copy of self.{attr}[...] without a lock: two threads doing this for the same key keep only one of the two updates, the SQLite sibling (one statement per row) keeps both")
+    ctx.floor("R12", "in-memory component methods", n12, 80 if class_filter is None else 10)
+
+
+def r13(ctx: Context, sites) -> None:
+    """An in-memory store (dict / set) accepts a key it already holds; the SQLite sibling must too."""
+    ctx.rule("R13", "no INSERT of a SQLite component can fail on a key that is already stored: an INSERT into a table with a declared PRIMARY KEY / UNIQUE group among its listed columns carries a conflict clause (OR REPLACE / OR IGNORE / ON CONFLICT), as the in-memory dict / set sibling accepts a repeated key silently")
+    keys = sqlmini.schema_keys(sites)
+    bymod: dict[tuple[str, str], list[tuple[str, ...]]] = {}
+    for s in sites:
+        for t in s.tables:
+            if t in keys and s.verb.startswith("CREATE"):
+                bymod.setdefault((s.func.module.name, t.split(".")[-1]), []).extend(keys[t])
+    n = 0
+    for s in sites:
+        if not s.verb.startswith("INSERT"):
+            continue
+        t = sqlmini.target_table(s.template)
+        if t is None:
+            raise AnalysisError(f"insert-without-table: {s.where}")
+        groups = bymod.get((s.func.module.name, t.split(".")[-1]))
+        if groups is None:
+            raise AnalysisError(f"insert-into-table-without-schema: {t} at {s.where}")
+        cols = set(sqlmini.insert_columns(s.template))
+        hit = [g for g in groups if not g[0].startswith("<auto>") and (not cols or set(g) <= cols)]
+        n += 1
+        pol = sqlmini.conflict_clause(s.template)
+        ok = not hit or pol is not None
+        ctx.add("R13", f"{s.func.qualname}::insert-tolerates-existing-key::{t.split('.')[-1]}", ok, s.where, "" if ok else f"plain INSERT INTO {t} with key {hit[0]}: a second call with the same key raises sqlite3.IntegrityError, where the in-memory sibling (dict / set) stores it again silently - a caller that runs twice for the same key (a re-executed invocation, a re-registration) fails on SQLite only")
+    ctx.floor("R13", "insert statements", n, 20)
+
+
+_ID_TRANSFORMS = {"replace", "astimezone", "lower", "upper", "strip", "lstrip", "rstrip", "title", "casefold", "round", "abs", "normalize", "date", "time", "timestamp", "utcoffset"}
+
+
+def r14(ctx: Context) -> None:
+    """An object read back from a persistent backend must carry the identity it was stored under."""
+    from ..flow import build_cfg, cfg_node_of, parent_map, reaching_definitions
+
+    ctx.rule("R14", "identities survive the stored form: for every class of the trigger model whose `*_id` property is computed from attributes, the readers of its hierarchy (from_json / _from_json) bind each such attribute to the untransformed inverse of what was written - one reaching definition, no normalising call (.replace / .astimezone / .lower / round ...) on the way; the in-memory backend keeps the original object, so any normalisation makes the id computed after a SQLite round trip differ from the key the record is stored under")
+    # identity attributes per hierarchy root
+    idattrs: dict[str, set[str]] = {}
+    classes = [c for c in ctx.repo.classes.values() if c.module.name.startswith("pynenc.trigger")]
+
+    def root_of(c):
+        ups = [b for b in c.mro() if b.module.name.startswith("pynenc.trigger")]
+        return ups[-1] if ups else c
+
+    for c in classes:
+        for m in c.methods.values():
+            if m.name.endswith("_id") and any("property" in ast.unparse(d) for d in m.node.decorator_list):
+                attrs = {x.attr for x in ast.walk(m.node) if isinstance(x, ast.Attribute) and isinstance(x.value, ast.Name) and x.value.id == "self" and not x.attr.endswith("_id") or False}
+                attrs |= {x.attr for x in ast.walk(m.node) if isinstance(x, ast.Attribute) and isinstance(x.value, ast.Name) and x.value.id == "self" and x.attr in ("invocation_id", "event_id", "task_id")}
+                idattrs.setdefault(root_of(c).qualname, set()).update(attrs)
+    if not idattrs:
+        raise AnalysisError("anchor-vanished: no identity property in pynenc.trigger")
+    n = 0
+    for c in classes:
+        ids = idattrs.get(root_of(c).qualname)
+        if not ids:
+            continue
+        for m in c.methods.values():
+            if m.name.lstrip("_") not in ("from_json", "from_dict"):
+                continue
+            g = None
+            binds: list[tuple[str, ast.AST, ast.AST]] = []  # (attribute, value, statement-ish node)
+            for x in walk_no_nested(m.node):
+                if isinstance(x, ast.Assign):
+                    for t in x.targets:
+                        if isinstance(t, ast.Attribute) and isinstance(t.value, ast.Name) and t.value.id != "self" and t.attr in ids:
+                            binds.append((t.attr, x.value, x))
+                if isinstance(x, ast.Call) and isinstance(x.func, ast.Name) and (x.func.id == "cls" or x.func.id == c.name):
+                    for kw in x.keywords:
+                        if kw.arg in ids:
+                            binds.append((kw.arg, kw.value, x))
+            for attr, val, at in binds:
+                n += 1
+                why = None
+                seen_names: set[str] = set()
+                work = [(val, at)]
+                depth = 0
+                while work and why is None and depth < 12:
+                    depth += 1
+                    v, where = work.pop()
+                    for cc in ast.walk(v):
+                        if isinstance(cc, ast.Call) and call_name(cc) in _ID_TRANSFORMS and isinstance(cc.func, ast.Attribute):
+                            why = f"`{ast.unparse(cc)[:60]}` transforms the stored value"
+                            break
+                    if why:
+                        break
+                    names = [y.id for y in ast.walk(v) if isinstance(y, ast.Name) and isinstance(y.ctx, ast.Load) and y.id not in m.params and y.id not in seen_names]
+                    if not names:
+                        continue
+                    if g is None:
+                        g = build_cfg(m.node)
+                        defs, IN = reaching_definitions(g)
+                        pm = parent_map(m.node)
+                    nodes = cfg_node_of(g, m.node, where, pm)
+                    for nm in names:
+                        seen_names.add(nm)
+                        rd = {d for nd in nodes for d in IN[nd.id] if d.name == nm}
+                        if not rd:
+                            continue  # a global / class name
+                        weak = {d for d in rd if d.kind == "weak"}
+                        for d in weak:
+                            if d.value is not None:
+                                work.append((d.value, where))
+                        rd -= weak
+                        if not rd:
+                            continue
+                        if len(rd) > 1:
+                            why = f"`{nm}` has {len(rd)} definitions reaching the binding (a conditional re-normalisation)"
+                            break
+                        d = next(iter(rd))
+                        if d.value is not None:
+                            holder = next((nd.ast for nd in g.nodes if nd.id == d.node and nd.ast is not None), None)
+                            work.append((d.value, holder if holder is not None else where))
+                ctx.add("R14", f"{m.qualname}::restores-identity-attribute-untransformed::{attr}", why is None, m.loc(at), "" if why is None else f"{attr} feeds an identity property of this hierarchy; {why}: the id computed from the object read back differs from the key its record was stored under (the in-memory backend, keeping the original object, is unaffected)")
+    ctx.floor("R14", "identity attribute bindings in readers", n, 8)
 
 
 def run(ctx: Context) -> None:
@@ -601,47 +782,10 @@ def run(ctx: Context) -> None:
     for s_, t_, miss in rows:
         ctx.add("R10", f"{s_.func.qualname}::replace-keeps-maintained-columns::{t_.split('.')[-1]}", not miss, s_.where, "" if not miss else f"INSERT OR REPLACE INTO {t_} omits {miss}, which UPDATE statements of the same component write: the value is lost whenever the row is written again")
     ctx.floor("R10", "replace statements", len(rows), 15)
-    # R11: a backend operation that failed says so on both backends: no handler of a Mem* / SQLite* component turns an
-    # exception into a normal result (the in-memory sibling has no such failure and would answer differently)
-    ctx.rule("R11", "no method of an in-memory or SQLite component swallows an exception (every `except` ends in `raise`); the single allowed site is the bounded retry of `database is locked` in the connection wrapper")
-    ALLOWED = {"pynenc.util.sqlite_utils.SQLiteConnection.execute": "bounded retry on 'database is locked', re-raises afterwards"}
-    n11 = 0
-    for c in ctx.repo.classes.values():
-        if not (c.name.startswith(("Mem", "SQLite")) and c.module.name.startswith("pynenc.")):
-            continue
-        for m in c.methods.values():
-            n11 += 1
-            hs = [h for h in ast.walk(m.node) if isinstance(h, ast.ExceptHandler) and not (h.body and isinstance(h.body[-1], ast.Raise))]
-            if m.qualname in ALLOWED:
-                ctx.ok("R11", f"{m.qualname}::errors-are-not-swallowed", m.loc(), "allowed: " + ALLOWED[m.qualname])
-                continue
-            ctx.add("R11", f"{m.qualname}::errors-are-not-swallowed", not hs, m.loc(hs[0]) if hs else m.loc(), "" if not hs else f"`except {ast.unparse(hs[0].type) if hs[0].type else ''}` ends without re-raising: a failed {c.name} operation is reported as an ordinary result (empty / default / done), which the sibling backend - where the failure cannot occur - never returns for that state")
-    ctx.floor("R11", "backend methods", n11, 150)
-    # R12: SQLite statements are atomic per row; the in-memory sibling must not replace a stored element by a value computed
-    # from a copy of it without a lock (a concurrent writer's update in between is lost: the SQLite backend keeps both)
-    from ..flow import read_copy_write_sites
-
-    ctx.rule("R12", "in-memory components do not read-copy-write an element of a shared container without a lock (`tmp = copy(self.X[k]); ...; self.X[k] = tmp`), except at the frozen single-writer sites")
-    SINGLE_WRITER = {
-        "pynenc.orchestrator.mem_orchestrator.MemOrchestrator.increment_invocation_retries::invocation_retries": "only the runner that owns the invocation counts its retries",
-        "pynenc.trigger.mem_trigger.MemTrigger.clean_task_trigger_definitions::_condition_triggers": "runs while a task's triggers are (re)registered at start-up, before the trigger loop of this process polls",
-    }
-    n12 = 0
-    for c in ctx.repo.classes.values():
-        if not (c.name.startswith("Mem") and c.module.name.startswith("pynenc.")):
-            continue
-        for m in c.methods.values():
-            n12 += 1
-            sites_ = read_copy_write_sites(m.node)
-            if not sites_:
-                continue
-            for node, attr, src in sites_:
-                k = f"{m.qualname}::{attr}"
-                if k in SINGLE_WRITER:
-                    ctx.ok("R12", f"{k}::no-unlocked-read-copy-write", m.loc(node), "single writer: " + SINGLE_WRITER[k])
-                else:
-                    ctx.fail("R12", f"{k}::no-unlocked-read-copy-write", m.loc(node), f"`{ast.unparse(node)[:70]}` stores a value computed from a copy of self.{attr}[...] without a lock: two threads doing this for the same key keep only one of the two updates, the SQLite sibling (one statement per row) keeps both")
-    ctx.floor("R12", "in-memory component methods", n12, 80)
+    r11(ctx)
+    r12(ctx)
+    r13(ctx, sites)
+    r14(ctx)
     ctx.exhaustive = True
     ctx.not_decided += [
         "equivalence over operation sequences and agreement with an executable reference model (behavioural)",
